@@ -161,7 +161,10 @@ def cases_C20(ts):
     from spec import vocab as V
     d = ts.date()
     days = [("today", d), ("tomorrow", d + timedelta(days=1)), ("heute", d), ("morgen", d + timedelta(days=1)),
-            (V.EN_DOW[2], next_dow(ts, 2, 1)), (V.DE_DOW[4], next_dow(ts, 4, 1)), ("1.3.2021", datetime(2021, 3, 1).date())]
+            (V.EN_DOW[2], next_dow(ts, 2, 1)), (V.DE_DOW[4], next_dow(ts, 4, 1)), ("1.3.2021", datetime(2021, 3, 1).date()),
+            # the day written with its connecting word; the weekday of the reference day itself included
+            ("on " + V.EN_DOW[ts.weekday()], next_dow(ts, ts.weekday(), 1)), ("this " + V.EN_DOW[2], next_dow(ts, 2, 1)),
+            ("am " + V.DE_DOW[ts.weekday()], next_dow(ts, ts.weekday(), 1))]
     clocks = [("8:30", 8, 30), ("17:45", 17, 45), ("8pm", 20, 0), ("9 uhr", 9, 0), ("3:15 pm", 15, 15)]
     out = []
     for dw, dd in days:
